@@ -83,6 +83,24 @@ var hidden = []string{
 	`function pure%[1]d() { log("never"); }`,                       // pure decoy
 	`class Pure%[1]d { m() { log("never"); } static s = 1; }`,      // pure decoy (static literal field)
 	`var u%[1]d = typeof undeclaredGlobal%[1]d;`,                   // pure decoy
+	`let z%[1]d; var [u%[1]d = X%[1]d()] = [z%[1]d];`,            // array-pattern default, element is an identifier holding undefined
+	`var [u%[1]d = X%[1]d()] = [...[]];`,                          // array-pattern default behind an empty spread
+	`var [e%[1]d, u%[1]d = X%[1]d()] = [...[], 1];`,                // position shifted by a spread
+	`var [u%[1]d = X%[1]d()] = [void 0];`,                          // literal undefined element
+	`var [u%[1]d = X%[1]d()] = [,];`,                               // hole
+	`let z%[1]d; var { k: u%[1]d = X%[1]d() } = { k: z%[1]d };`,   // object-pattern default, property holds undefined
+	`var { k: u%[1]d = X%[1]d() } = {};`,                           // object-pattern default, property missing
+	`var { k: { j: u%[1]d = X%[1]d() } } = { k: {} };`,             // nested pattern default
+	`var [[u%[1]d = X%[1]d()]] = [[]];`,                            // nested array pattern default
+	`var u%[1]d = [X%[1]d()][0];`,                                  // call inside an array literal that is then indexed
+	`var u%[1]d = { a: X%[1]d() }.a;`,                              // call inside an object literal
+	`var u%[1]d = false || X%[1]d();`,                              // short-circuit that does evaluate the call
+	`var u%[1]d = true && X%[1]d();`,
+	`var u%[1]d = null ?? X%[1]d();`,
+	`var u%[1]d = 1 ? X%[1]d() : 0;`,
+	`var u%[1]d = (0, X%[1]d)();`,                                  // indirect call
+	`var u%[1]d = X%[1]d?.();`,                                     // optional call
+	`var u%[1]d = ((a = X%[1]d()) => a)();`,                        // arrow default parameter
 	`async function AF%[1]d() {} class U%[1]d extends AF%[1]d {}`,  // heritage is a bound non-constructible → TypeError (known finding)
 }
 
